@@ -92,10 +92,17 @@ def build_pool(seed, tier):
     calls = []
 
     hot_writes = rng.sample([w for w in WRITE_DIALECTS if w], 5)
-    hot_opts = [{}, {}, {"unsupported_level": "RAISE"}, {"pretty": True}, {"identify": True}]
+    hot_opts = [{}, {}, {"unsupported_level": "RAISE"}, {"pretty": True}, {"identify": True}, {"identify": "safe"}, {"identify": "safe"},
+                {"identify": True, "unsupported_level": "IMMEDIATE"}]
+
+    def with_settings(d):
+        # the same dialect CLASS with different instance settings: state keyed by class only would leak between them
+        if d and rng.random() < 0.12:
+            return "%s, normalization_strategy=%s" % (d, rng.choice(["lowercase", "uppercase", "case_sensitive", "case_insensitive"]))
+        return d
 
     def pick_write():
-        return rng.choice(hot_writes) if rng.random() < 0.7 else rng.choice(WRITE_DIALECTS)
+        return with_settings(rng.choice(hot_writes) if rng.random() < 0.7 else rng.choice(WRITE_DIALECTS))
 
     def pick_stmt():
         r = rng.random()
@@ -146,7 +153,7 @@ def build_pool(seed, tier):
             else:
                 d, s, sch = None, rng.choice(corpus.SCHEMA_QUERIES), "xyz"
             if d is None and rng.random() < 0.3:
-                d = rng.choice(["duckdb", "snowflake", "bigquery", "postgres", "spark", "mysql", "tsql"])
+                d = with_settings(rng.choice(["duckdb", "snowflake", "bigquery", "postgres", "spark", "mysql", "tsql"]))
             k = rng.random()
             if sch == "none":
                 calls.append({"op": "annotate_raw", "sql": s, "read": d})
